@@ -55,8 +55,7 @@ def extend : List (String × List Json) → String → List Json → List (Strin
 /-- `setup_models_data(models, models_lists, parser)` with `args = models ++ lists` -/
 def assemble (args : List Arg) : Except PyErr (List (String × List Json)) :=
   args.foldlM (fun acc (a : Arg) => do
-    -- `defaultdict.__getitem__` creates the entry even when the pattern matched no file
-    let acc := extend acc a.name []
+    -- an argument whose pattern matched no file never touches `models_dict[name]`: no entry is created
     a.docs.foldlM (fun acc d => do
       let items ← iterJsonFile d a.lookup
       pure (extend acc a.name items)) acc) []
